@@ -166,6 +166,12 @@ func runDecodeCase(o *hx.Out, k int, r *prng.R, u *universe) {
 	if obs == "panic" {
 		o.Fail("cond-decoder-panic", k, "bytes=%x", b)
 	}
+	// the encoder: model vs real on the generated tree (any depth, counts below 0xfd)
+	if k%2 == 0 {
+		ew := io.NewBufBinWriter()
+		t.real().EncodeBinary(ew.BinWriter)
+		o.Line("enc "+t.tok(), hx.Hex(ew.Bytes()))
+	}
 	// a well-formed encoding of a tree within the limits must be accepted and give that tree back
 	if wellFormed && t.depth() <= transaction.MaxConditionNesting && t.widthsOK() {
 		o.Count("dec:valid-within-limits")
